@@ -687,8 +687,70 @@ def ensure_facts(ctx, who):
                          "apply_affixes; ROOT/HERE are taken from the real Executor._run_command only (harness/c20_exec.py)")
 
 
+TARGET_FIXED = [
+    ("/r/proj", "/r/proj", "out.txt"), ("/r/proj", "/r/proj/sub", "out.txt"), ("/r/proj", "/r/proj/sub", "../out.txt"),
+    ("/r/proj", "/r/proj/sub", "d/"), ("/r/proj", "/r/proj/sub/deep", "../../d/e/"), ("/r/proj", "/r/proj", "./d/"),
+    ("/r/proj", "/r/proj/sub", "/r/proj/x/y.txt"), ("/r/proj", "/r/proj/sub", "/r/proj/x/"), ("/r/proj", "/r/other", "../proj/a"),
+    ("/r/proj", "/r/proj/sub", "a//b/./c"), ("/r/proj", "/r/proj", "sub/../sub/x/"), ("/", "/a", "b/"),
+]
+
+
+def check_targets(ctx, n):
+    """`stepup build TARGET...` typed in any directory: tui._normalize_targets (the CLI-side counterpart of
+    translate: Path.absolute, relpath to the root, normpath, the trailing separator as the only classifier)
+    must record the normalized root-relative path that designates the same file, as a directory target exactly
+    when the argument ends in a separator.  Implementation only; os.getcwd is patched, nothing touches the disk."""
+    from path import Path
+    try:
+        from stepup.core.tui import _normalize_targets
+    except Exception as e:  # noqa: BLE001
+        return {"oracle:targets:import": (f"tui._normalize_targets cannot be imported: {e}", None)}
+    rng = ctx.rng
+    found = {}
+    cases = list(TARGET_FIXED)
+    for _ in range(n):
+        root = rand_root(rng)
+        r = rng.random()
+        cwd = root if r < 0.2 else (lex(root, rand_here(rng)) if r < 0.85 else rand_root(rng))
+        raw = rand_path(rng) if rng.random() < 0.5 else rand_rel_path(rng)
+        if rng.random() < 0.35 and raw and not raw.endswith("/"):
+            raw += "/"
+        cases.append((root, cwd, raw))
+    for root, cwd, raw in cases:
+        if raw == "" or "\x00" in raw:
+            continue
+        wit = {"targets": {"root": root, "cwd": cwd, "raw": raw}}
+        try:
+            with patched(cwd, root, None):
+                files, dirs = _normalize_targets([raw], Path(root))
+        except Exception as e:  # noqa: BLE001
+            found.setdefault("oracle:targets:raises", (f"_normalize_targets([{raw!r}]) in {cwd!r} raised {type(e).__name__}: {e}", wit))
+            continue
+        is_dir = raw.endswith("/")
+        ctx.case(("targets", root, cwd, raw), nontrivial(raw, cwd))
+        got = [str(x) for x in (dirs if is_dir else files)]
+        other = [str(x) for x in (files if is_dir else dirs)]
+        if other or len(got) != 1:
+            found.setdefault("oracle:targets:classification",
+                             (f"{raw!r} typed in {cwd!r}: files={files} dirs={dirs}; the trailing separator is the only classifier", wit))
+            continue
+        t = got[0]
+        meant = lex(cwd, raw)
+        if lex(root, t) != meant:
+            found.setdefault("oracle:targets:same-file",
+                             (f"{raw!r} typed in {cwd!r} means {meant!r}; recorded target {t!r} designates {lex(root, t)!r} from the root {root!r}", wit))
+        body = t[:-1] if (is_dir and t.endswith("/") and len(t) > 1) else t
+        if posixpath.normpath(body) != body and body != "":
+            found.setdefault("oracle:targets:normalized", (f"{raw!r} typed in {cwd!r}: recorded target {t!r} is not normalized", wit))
+        if is_dir and not t.endswith("/"):
+            found.setdefault("oracle:targets:trailing-separator-lost", (f"{raw!r} typed in {cwd!r}: directory target recorded as {t!r}", wit))
+    return found
+
+
 def oracle(ctx):
     ensure_facts(ctx, "oracle")
+    for sig, (detail, witness) in sorted(check_targets(ctx, ctx.scale(400, 5000)).items()):
+        ctx.add_failure("oracle", sig, sig, detail, witness=witness)
     found = run_oracle(ctx, ctx.scale(1500, 20000))
     ctx.count("oracle_signatures", len(found))
     for sig, (detail, witness) in sorted(found.items()):
@@ -714,6 +776,7 @@ def search(ctx):
     """An obligation broke and nothing produced a witness: run the oracle much deeper."""
     ensure_facts(ctx, "search")
     found = run_oracle(ctx, 40000 if ctx.thorough() else 12000)
+    found.update(check_targets(ctx, 4000))
     for sig, (detail, witness) in sorted(found.items()):
         ctx.add_failure("oracle", sig, sig + ":search", detail, witness=witness)
 
@@ -722,7 +785,15 @@ def replay(ctx, obj):
     w = obj["failure"].get("witness") or {}
     ensure_facts(ctx, "replay")
     print("replaying", w)
-    if {"cwd", "root", "here", "workdir", "path"} <= set(w):
+    if "targets" in w:
+        t = w["targets"]
+        from path import Path
+        from stepup.core.tui import _normalize_targets
+        with patched(t["cwd"], t["root"], None):
+            print("tui._normalize_targets ->", _normalize_targets([t["raw"]], Path(t["root"])))
+        for sig, (detail, witness) in sorted(check_targets(ctx, 0).items()):
+            ctx.add_failure("oracle", sig, sig, detail, witness=witness)
+    elif {"cwd", "root", "here", "workdir", "path"} <= set(w):
         for sig, detail in check_tuple(w["cwd"], w["root"], w["here"], w["workdir"], w["path"], ctx.facts):
             ctx.add_failure("oracle", sig, sig, detail, witness=w)
     elif "apply_affixes" in w:
